@@ -283,13 +283,20 @@ class Summariser:
         self.model = model
         self.cache: dict[str, Summary] = {}
 
-    def summary(self, fn: FunctionInfo | str) -> Summary:
+    def summary(self, fn: FunctionInfo | str, full: bool = False) -> Summary:
+        """``full``: every parameter stays symbolic - for the EFFECT analyses (who mutates / captures / writes
+        what), which hold for every call.  Default: new optional keywords read with their defaults (what the
+        function COMPUTES for the calls the property speaks about)."""
         if isinstance(fn, str):
             fn = self.model.function(fn)
-        s = self.cache.get(fn.qualname)
+        key = fn.qualname + ("#full" if full else "")
+        s = self.cache.get(key)
         if s is None:
-            s = _Builder(self.model, fn, self).run()
-            self.cache[fn.qualname] = s
+            if full and not new_defaulted_params(self.model, fn):
+                s = self.summary(fn)
+            else:
+                s = _Builder(self.model, fn, self, specialise=not full).run()
+            self.cache[key] = s
         return s
 
     def inlinable(self, fn: FunctionInfo | None, tail: bool = False) -> bool:
@@ -497,10 +504,11 @@ def _len_truth(test, pol):
 
 
 class _Builder:
-    def __init__(self, model: Model, fn: FunctionInfo, owner: "Summariser | None" = None) -> None:
+    def __init__(self, model: Model, fn: FunctionInfo, owner: "Summariser | None" = None, specialise: bool = True) -> None:
         self.model = model
         self.fn = fn
         self.owner = owner
+        self.specialise = specialise
         self.low = Lowering(model, fn, fn.module)
         self.truncated = False
         self.inline_stack: list[str] = []
@@ -516,8 +524,9 @@ class _Builder:
         env: dict = {}
         for p in self.fn.params:
             env[p.name] = ("param", p.name)
-        for name, val in new_defaulted_params(self.model, self.fn).items():
-            env[name] = ("const", val)
+        if self.specialise:
+            for name, val in new_defaulted_params(self.model, self.fn).items():
+                env[name] = ("const", val)
         start = Path([], env, None)
         body = list(self.fn.node.body)
         if body and isinstance(body[0], ast.Expr) and isinstance(body[0].value, ast.Constant) and isinstance(body[0].value.value, str):
